@@ -332,7 +332,8 @@ func c60CheckICMP(w *vx.W, x c60Case) {
 	if x.V6 {
 		fam, proto = "v6", iana.ProtocolIPv6ICMP
 	}
-	sig := func(clause, field string) string { return "C60/" + clause + "/" + x.Kind + "/" + field + ":" + fam }
+	// the signature names the failed clause only; message kind and family are in the description
+	sig := func(clause, field string) string { return "C60/" + clause + "/" + field }
 	m := x.message()
 	var psh []byte
 	src, dst := net.ParseIP("fe80::1"), net.ParseIP("ff02::1")
@@ -483,7 +484,7 @@ func c60CheckICMP(w *vx.W, x c60Case) {
 			return
 		}
 		if *g != *want {
-			bad("fields", "parsed %+v, want %+v", *g, *want)
+			bad("extended-echo-reply-fields", "parsed %+v, want %+v", *g, *want)
 			return
 		}
 	case *DstUnreach:
